@@ -84,6 +84,8 @@ PLAN = {   # which properties' quick checks are run against which seeded change
     "C19-b": ["C19", "C07"],
     "C09-c": ["C09", "C16"], "C16-c": ["C16"], "C10-c": ["C10"], "C11-c": ["C11"], "C18-c": ["C18"],
     "C02-c": ["C02"], "C03-c": ["C03"], "C04-c": ["C04", "C17"], "C05-c": ["C05"], "C20-c": ["C20"],
+    "C01-d": ["C01"], "C06-d": ["C06"], "C07-d": ["C07"], "C08-d": ["C08"], "C12-d": ["C12"], "C13-d": ["C13"], "C14-d": ["C14"],
+    "C15-d": ["C15"], "C17-d": ["C17"], "C19-d": ["C19"],
 }
 
 
